@@ -170,6 +170,10 @@ def correspond(ctx):
         objs_by_sx[sx] = obj
         for _ in range(ctx.n(12, 20)):
             h, w = sc.random_dims(rng) if rng.random() < 0.25 else (rng.randint(1, 4), rng.randint(1, 4))
+            if max(h, w) > 70 and ast not in LIB_TERMS:
+                # a random term may contain a base that produces items without consuming text (e.g. Grid(.., height=0, ..)):
+                # with a huge declared board both the real decoder and the model then loop ~h*w times
+                h, w = min(h, 70), min(w, 70)
             if max(h, w) > 70 and ast[0] in ("rooms", "vrooms") and False:
                 continue
             texts = []
@@ -422,8 +426,16 @@ def search(ctx, why):
                  for body in ("", "0", "00", "g", "--1", "0.", "1.", "4f", "00g")]
     for _ in range(1500):
         urls.append(random_url(rng, names))
-    for u in urls:
-        for p in sc.PUZZLES:
+    # every short body over a small alphabet through each puzzle's OWN codec (1x1, 2x1, 1x2 boards)
+    own = []
+    for p in sc.PUZZLES:
+        for (ww, hh) in ((1, 1), (2, 1), (1, 2)):
+            for n in range(0, 5):
+                for tup in itertools.product("0169af-+.g", repeat=n):
+                    own.append((p, "https://puzz.link/p?%s/%d/%d/%s" % (p, ww, hh, "".join(tup))))
+    pairs = [(u, p) for u in urls for p in sc.PUZZLES] + [(u, p) for (p, u) in own]
+    for (u, p) in pairs:
+        if True:
             mod, comb, ser, de = objs[p]
             o = sc.run_guarded(lambda: de(u), 20)
             bad = None
